@@ -33,8 +33,12 @@ POOL = [
     ("emptystr", '""'), ("str", '"ab"'), ("ch", '"a"'), ("ch2", '"e"'), ("ustr", '"hé"'), ("emptylist", "[]"), ("list", "[3, 1, 2]"), ("nested", "[[1, 2], [3]]"),
     ("mixed", '[1, "a", null]'), ("dict", '{1: 2, "a": [3]}'), ("set", "{1, 2}"), ("vector", "V(1, 2)"), ("bytes", "B[104, 255]"),
     ("stream", "(1 to 3)"), ("builtin", "(+)"), ("closure", "(\\x -> [x])"), ("closure2", "(\\x, y -> [x, y])"), ("type", "int"),
+    # a predicate that fails on some elements of `mixed`: short-circuiting folds must stop (or not) alike in every form
+    ("pred", "(\\x -> x > 0)"),
+    # a function that prints its argument: the printed output is part of every form's outcome, so a form that calls it more or fewer times differs
+    ("noisy", "(\\x -> (print(x); x))"),
 ]
-QUICK = ["null", "int0", "int2", "rational", "float", "str", "ch", "ch2", "ustr", "list", "dict", "stream", "closure", "closure2"]
+QUICK = ["null", "int0", "int2", "rational", "float", "str", "ch", "ch2", "ustr", "list", "mixed", "dict", "stream", "closure", "closure2", "pred", "noisy"]
 SUB3 = ["int0", "int2", "str", "ch", "list", "closure2", "null", "stream", "float"]
 SUB3_QUICK = ["int2", "str", "ch", "list", "closure2"]     # two different strings: pattern / replacement / subject must be tellable apart
 
@@ -155,7 +159,7 @@ def outcome(r, unordered=False):
     return ("crash", st)
 
 
-FUNC_KINDS = ("builtin", "closure", "closure2", "type")
+FUNC_KINDS = ("builtin", "closure", "closure2", "type", "pred", "noisy")
 
 
 def judge(case, rs):
